@@ -9,7 +9,7 @@
      elab_export_model2 xi d             the pipeline model of Props/C01F.v: ResolvePortRefs (with update_ref_deps) ; ArrayFlattener ;
                                          SliceResolver ; ProtoExporter (depth first, definition before use)
 
-   Hypotheses of the end-to-end theorems (all boolean, all evaluated by the correspondence run on every design, Corr/C11E.v):
+   The hypotheses of the end-to-end theorems (all boolean, all evaluated by the correspondence run on every design, Corr/C11E.v):
      wf_design d = Ok tt, frag_ok2 d = true, xinfo_ok xi d = true      as in Props/C01F.v
      xinfo_c11_ok xi = true                                            the side table that spells leaf devices in VLSIR:
         - a device with its own ExternalModule: not in a primitive domain; the declaration has distinct port names, vlsir
